@@ -3,25 +3,6 @@
 mod verif_kani {
     use super::*;
 
-    /// K-fname-rt (bounded): filename() of a file number parses back to that number.
-    /// Bound: numbers d * 10^k with d in 0..=9, k in 0..=19 (one symbolic decimal digit at any place value).
-    #[kani::proof]
-    #[kani::unwind(26)]
-    fn k_fname_rt() {
-        let d: u64 = kani::any();
-        let k: u32 = kani::any();
-        kani::assume(d <= 9 && k <= 19);
-        let mut n: u64 = d;
-        let mut i = 0;
-        while i < k {
-            // d * 10^19 overflows only for d >= 2
-            match n.checked_mul(10) { Some(m) => n = m, None => return }
-            i += 1;
-        }
-        let name = FileNumber::new(n).filename();
-        assert_eq!(super::super::directory::verif_kani::f2p(&name), Some(n));
-    }
-
     /// K-handles (bounded): a file handle can be deleted iff no retained record was appended with it.
     /// Shape: 3 appends (two with file A, one with file B), then truncate(..=p) for symbolic p in 0..=3.
     #[kani::proof]
